@@ -60,14 +60,30 @@ fn gen_engine_rules(r: &mut Rng) -> Vec<String> {
     for _ in 0..3 + r.below(5) {
         rules.push(gen_cos_rule(r, SELS, true).line);
     }
+    // pages with differing generichide verdicts (plain and regex-backed), plus generic selectors
+    // that the verdict switches on and off
+    for (host, _) in PAGES.iter() {
+        match r.below(4) {
+            0 => rules.push(format!("@@||{}^$generichide", host)),
+            1 => rules.push(format!("@@||{}^*p$generichide", host)),
+            _ => {}
+        }
+    }
+    rules.push("##div[data-generic-ad]".to_string());
+    rules.push("##.generic-only > span".to_string());
     r.shuffle(&mut rules);
     rules
 }
 
 fn gen_queries(r: &mut Rng, rules: &[String], n: usize) -> Vec<Q> {
+    // one batch in three is cosmetic-only, cycling over all pages: concurrent per-site queries for
+    // hosts with different answers collide on whatever state the engine shares between them
+    let cosmetic_only = r.chance(1, 3);
     (0..n)
-        .map(|_| {
-            if r.chance(1, 5) {
+        .map(|k| {
+            if cosmetic_only {
+                Q::Cos(format!("https://{}/p", PAGES[k % PAGES.len()].0))
+            } else if r.chance(1, 5) {
                 Q::Cos(format!("https://{}/p", r.pick(PAGES).0))
             } else {
                 let q = gen_request(r, rules);
@@ -306,7 +322,7 @@ mod sync_impl {
         verif::set_pre_acquire(Some(Box::new(pre_acquire)));
         let tsan = ctx.extra.contains_key("tsan");
         let miri = ctx.extra.contains_key("miri");
-        let cases = if miri { 1 } else if tsan { ctx.n(40, 400) } else { ctx.n(480, 8_000) };
+        let cases = if miri { 1 } else if tsan { ctx.n(40, 400) } else { ctx.n(320, 8_000) };
         let nq = if miri { 3 } else if tsan { 120 } else { 400 };
         for idx in 0..cases {
             if ctx.stop() {
@@ -350,6 +366,8 @@ mod sync_impl {
             // under ThreadSanitizer the event log stays off so that the hook adds no synchronisation
             verif::set_logging(!tsan, 1 << 18);
             // each thread runs the whole query list, starting at a different offset
+            // cosmetic-only batches are cheap per query: repeat them so that threads collide often
+            let reps = if !miri && qs.iter().all(|q| matches!(q, Q::Cos(_))) { 10 } else { 1 };
             let (tx, rx) = mpsc::channel::<(usize, Result<Vec<(usize, String)>, String>)>();
             let started = std::time::Instant::now();
             let mut hung = false;
@@ -361,10 +379,10 @@ mod sync_impl {
                     let qs = &qs;
                     s.spawn(move || {
                         let r = guarded(|| {
-                            let mut out = Vec::with_capacity(qs.len());
+                            let mut out = Vec::with_capacity(qs.len() * reps);
                             let off = t * qs.len() / nthreads;
-                            for k in 0..qs.len() {
-                                let i = (k + off) % qs.len();
+                            for k in 0..qs.len() * reps {
+                                let i = (k + off + k / qs.len()) % qs.len();
                                 out.push((i, answer(e, &qs[i])));
                             }
                             out
